@@ -76,7 +76,7 @@ Laws ==
     /\ c.kind = "natt"   => TDiff(c.t, NAT) = NAT /\ TDiff(NAT, c.t) = NAT /\ TAdd(c.t, NAT) = NAT /\ TSub(c.t, NAT) = NAT
     /\ c.kind = "trunc"  => /\ \A q \in {1, 15, 60, 3600, 21600, 86400} : TruncIsGreatestMultiple(c.t, q)
                             /\ \A dm \in {1, 2, 3, 4, 6, 12} : MonthTruncIsPeriodStart(c.t, dm)
-    /\ c.kind = "tod"    => HmsRoundTrip(c.h, c.mi, c.s, c.sub)
+    /\ c.kind = "tod"    => HmsRoundTrip(c.h, c.mi, c.s, c.sub) /\ ToDWithLaws(ToDFromHms(c.h, c.mi, c.s, c.sub))
 
 EmitTime ==
     PrintT(<<"REPLAY", ToJson(
@@ -98,5 +98,7 @@ EmitTime ==
                                  nss |-> [q \in {1000, 1000000, 250000000} |-> TruncNs(c.t, q)],
                                  months |-> [dm \in {1, 2, 3, 4, 6, 12} |-> TruncMonths(c.t, dm)]]
         [] c.kind = "tod"    -> [op |-> "tod", h |-> c.h, mi |-> c.mi, s |-> c.s, sub |-> c.sub,
-                                 tod |-> ToDFromHms(c.h, c.mi, c.s, c.sub)])>>)
+                                 tod |-> ToDFromHms(c.h, c.mi, c.s, c.sub),
+                                 with |-> [fld \in {"hour", "minute", "second", "nano"} |->
+                                             [val \in WithVals(fld) |-> ToDWith(ToDFromHms(c.h, c.mi, c.s, c.sub), fld, val)]]])>>)
 =============================================================================
